@@ -1339,7 +1339,11 @@ ws_http_cb_dialer(nni_ws *ws, nni_aio *aio)
 
 	d = ws->dialer;
 	nni_mtx_lock(&d->mtx);
+	// ws->useraio belongs to ws->mtx (ws_dial_cancel completes it under
+	// that lock); this is only a look, the completion below takes it.
+	nni_mtx_lock(&ws->mtx);
 	uaio = ws->useraio;
+	nni_mtx_unlock(&ws->mtx);
 
 	// We have two steps.  In step 1, we just sent the request,
 	// and need to retrieve the reply.  In step two we have
@@ -1413,11 +1417,19 @@ ws_http_cb_dialer(nni_ws *ws, nni_aio *aio)
 		}
 	}
 
-	// At this point, we are in business!
-	nni_list_remove(&d->wspend, ws);
-	ws->ready   = true;
+	// At this point, we are in business!  (Unless the user canceled
+	// in the meantime, in which case the aio is already completed.)
+	nni_mtx_lock(&ws->mtx);
+	uaio        = ws->useraio;
 	ws->useraio = NULL;
-	ws->dialer  = NULL;
+	nni_mtx_unlock(&ws->mtx);
+	if (uaio == NULL) {
+		rv = NNG_ECANCELED;
+		goto err;
+	}
+	nni_list_remove(&d->wspend, ws);
+	ws->ready  = true;
+	ws->dialer = NULL;
 	nni_aio_set_output(uaio, 0, ws);
 	nni_aio_finish(uaio, 0, 0);
 	if (nni_list_empty(&d->wspend)) {
@@ -1427,8 +1439,11 @@ ws_http_cb_dialer(nni_ws *ws, nni_aio *aio)
 	return;
 err:
 	nni_list_remove(&d->wspend, ws);
+	nni_mtx_lock(&ws->mtx);
+	uaio        = ws->useraio;
 	ws->useraio = NULL;
-	ws->dialer  = NULL;
+	nni_mtx_unlock(&ws->mtx);
+	ws->dialer = NULL;
 	if (nni_list_empty(&d->wspend)) {
 		nni_cv_wake(&d->cv);
 	}
@@ -2333,8 +2348,10 @@ ws_dialer_dial(void *arg, nni_aio *aio)
 		ws_reap(ws);
 		return;
 	}
-	ws->dialer    = d;
-	ws->useraio   = aio;
+	ws->dialer = d;
+	nni_mtx_lock(&ws->mtx);
+	ws->useraio = aio;
+	nni_mtx_unlock(&ws->mtx);
 	ws->server    = false;
 	ws->maxframe  = d->maxframe;
 	ws->isstream  = d->isstream;
